@@ -26,8 +26,23 @@ def buffer(cursor_param=True):
 """ % MAXLEN
 
 
+class AssumedView:
+    """declares the same contracts on another unit as ASSUMED (they are proved in unit c16_xml)"""
+    def __init__(self, U):
+        self.U = U
+
+    def fn(self, name, **kw):
+        kw["assumed"] = True
+        return self.U.fn(name, **kw)
+
+
 def units():
     U = Unit("c16_xml", "units/c16_xml.cpp", helpers=HELPERS, opts=dict(opaque_std=True))
+    declare(U)
+    return [U, assembly_unit(), values_unit()]
+
+
+def declare(U):
     CUR_OK = {"cursor_stays_inside_the_buffer": VALID, "only_runtime_error_escapes": "__verif_exc == 0 || __verif_exc == %s" % EXC}
     U.fn("x_isWhite", ensures={"white_is_space_tab_newline_cr": "RET == ($0 == ' ' || $0 == '\\t' || $0 == '\\n' || $0 == '\\r')"})
     U.fn("x_expect", pre_call=buffer(), requires=BUFOK + [VALID], assigns=[], ensures={
@@ -94,7 +109,174 @@ def units():
     U.fn("x_parseXML", solver=CADICAL, flags=GUARD, pre_call=docbuf, arrays={"s": 1}, ptr_requires=False, requires=BUFOK + ["__CPROVER_r_ok($0, sizeof(*$0))", "$1 == g_buf"], assigns=["*$0"],
          loops={1: dict(assigns=["s", "*doc", "__verif_exc"], invariant=[LV("s"), "__verif_exc == 0"], decreases=DIST("s"))},
          ensures={"parseXML_returns_a_document_or_throws_runtime_error": "__verif_exc == 0 || __verif_exc == %s" % EXC})
-    return [U, values_unit()]
+
+
+
+# ---------------------------------------------------------------- parseNode: assembly of the tree (structural, strings stay opaque)
+ASM_STUBS = """
+/* Ghost frame of one parseNode activation and logging wrappers.  The wrappers CALL the functions under contract (so the callee's
+ * proved contract is what the caller sees) and only add bookkeeping; the std operations parseNode applies to the node under
+ * construction (properties[name] = value, child.push_back, the two string comparisons, content = ...) are recording models.
+ * What is asserted is the PROTOCOL by which the pieces are put together -- which object is parsed into, what is stored under which
+ * key, that nothing parsed is dropped or stored twice, in order; the VALUES stay opaque here (leaf fidelity is unit c16_values). */
+typedef struct verif_frame {
+  std_basic_string_char *open_name, *last_ident; unsigned long ident_calls;
+  _Bool prop_pending, slot_pending; std_basic_string_char *last_name, *last_value; unsigned long found, stored;
+  _Bool child_pending; unsigned long parsed, pushed;
+  std_basic_string_char *content_target; _Bool content_pending; unsigned long content_sets;
+} verif_frame;
+std_basic_string_char g_slot;
+_Bool verif_log_parseIdentifier(verif_frame *f, char **s, std_basic_string_char *out)
+{
+  _Bool r = x_parseIdentifier(s, out);
+  if (__verif_exc == 0) { if (f->ident_calls == 0) f->open_name = out; f->last_ident = out; f->ident_calls++; }
+  return r;
+}
+_Bool verif_log_parseProp(verif_frame *f, char **s, std_basic_string_char *n, std_basic_string_char *v)
+{
+  __CPROVER_assert(!f->prop_pending, "ASSEMBLY every parsed property is stored before the next one is parsed");
+  _Bool r = x_parseProp(s, n, v);
+  if (__verif_exc == 0 && r) { f->prop_pending = 1; f->last_name = n; f->last_value = v; f->found++; }
+  return r;
+}
+std_basic_string_char *verif_asm_map_index(verif_frame *f, void *map, std_basic_string_char *key)
+{
+  __CPROVER_assert(f->prop_pending && !f->slot_pending && key == f->last_name, "ASSEMBLY properties[...] is indexed with the property name just parsed, once per parsed property");
+  __CPROVER_assert(f->ident_calls >= 1 && __CPROVER_same_object(map, f->open_name), "ASSEMBLY the property map and the parsed node name belong to the same node object");
+  f->slot_pending = 1;
+  return &g_slot;
+}
+std_basic_string_char *verif_asm_str_assign(verif_frame *f, std_basic_string_char *dst, std_basic_string_char *src)
+{
+  if (dst == &g_slot) {
+    __CPROVER_assert(f->slot_pending && src == f->last_value, "ASSEMBLY the slot of the parsed name receives the parsed value");
+    f->slot_pending = 0; f->prop_pending = 0; f->stored++;
+  } else {
+    __CPROVER_assert(f->content_pending && dst == f->content_target, "ASSEMBLY the only other string assigned is the node content, from the text just cut out, into the string that was tested for emptiness");
+    __CPROVER_assert(__CPROVER_same_object(dst, f->open_name), "ASSEMBLY the content and the parsed node name belong to the same node object");
+    f->content_pending = 0; f->content_sets++;
+  }
+  return dst;
+}
+Node verif_log_parseNode(verif_frame *f, char **s)
+{
+  __CPROVER_assert(!f->child_pending, "ASSEMBLY every parsed child is appended before the next one is parsed");
+  Node r = x_parseNode(s);
+  if (__verif_exc == 0) { f->child_pending = 1; f->parsed++; }
+  return r;
+}
+void verif_asm_push_child(verif_frame *f, void *vec, Node *c)
+{
+  __CPROVER_assert(f->child_pending, "ASSEMBLY push_back appends exactly the child just parsed, once");
+  __CPROVER_assert(f->ident_calls >= 1 && __CPROVER_same_object(vec, f->open_name), "ASSEMBLY the child list and the parsed node name belong to the same node object");
+  f->child_pending = 0; f->pushed++;
+}
+_Bool verif_asm_str_ne(verif_frame *f, std_basic_string_char *a, std_basic_string_char *b)
+{
+  __CPROVER_assert(f->ident_calls == 2 && ((a == f->last_ident && b == f->open_name) || (b == f->last_ident && a == f->open_name)), "ASSEMBLY the name after '</' is compared with the name parsed after '<'");
+  return nondet__Bool();
+}
+_Bool verif_asm_str_ne_cstr(verif_frame *f, std_basic_string_char *a, const char *lit)
+{
+  __CPROVER_assert(lit[0] == 0, "ASSEMBLY the content is tested against the empty string");
+  f->content_target = a;
+  return nondet__Bool();
+}
+std_basic_string_char verif_log_makeString(verif_frame *f, char *begin, char *end, char *cur)
+{
+  /* (end may lie before begin: the scan stops on the four XML white-space bytes, the trimming uses isspace, which also takes
+   *  \\v and \\f; makeString then throws for a content of only those -- totality is not affected) */
+  __CPROVER_assert(__CPROVER_same_object(begin, cur) && __CPROVER_same_object(end, cur) && __CPROVER_POINTER_OFFSET(begin) < __CPROVER_POINTER_OFFSET(cur) && __CPROVER_POINTER_OFFSET(end) <= __CPROVER_POINTER_OFFSET(cur),
+                   "ASSEMBLY the content is cut out of the text between its first byte and the cursor");
+  __CPROVER_assert(*cur == '<' || *cur == 0, "ASSEMBLY the content runs up to the next '<' (or the end of the text)");
+  __CPROVER_assert(!verif_isspace(end[-1]), "ASSEMBLY trailing white space is trimmed off the content");
+  __CPROVER_assert(begin == f_content_begin, "ASSEMBLY the content starts where the white space after the previous item ended");
+  std_basic_string_char r = x_makeString(begin, end);
+  if (__verif_exc == 0) f->content_pending = 1;
+  return r;
+}
+"""
+
+
+def asm_intercepts():
+    from cxx2c import X, Ty, parse_type, fn_ret_type, deref, addr
+    STR = Ty("rec", name="std::basic_string<char>")
+    F = lambda: addr(X("var", "gl", ty=Ty("rec", name="verif_frame")))
+    inside = lambda tr: tr.cur is not None and tr.cur.cname == "x_parseNode"
+
+    def internal(wrapper, extra=None):
+        def h(tr, fid, e, args, obj):
+            if not inside(tr):
+                return None
+            info = tr.ast.finfo(fid)
+            rets, ps = fn_ret_type(info["type"])
+            tr.rule("assembly: logged call")
+            tr.cur.calls[wrapper] = True
+            cargs = [F()]
+            for a, p in zip(args, ps):
+                cargs.append(tr.bind_ref(a) if parse_type(p).kind == "ref" else tr.rv(a))
+            if extra:
+                cargs.append(extra())
+            call = X("call", wrapper, cargs, ty=tr.lower(parse_type(rets)))
+            return X("callx", call, wrapper, tr.jump_text(), None, ty=call.ty)
+        return h
+
+    def map_index(tr, fid, e, args, obj):
+        if not inside(tr):
+            return None
+        tr.cur.calls["verif_asm_map_index"] = True
+        o = deref(tr.rv(obj[0])) if obj[1] else tr.lv(obj[0])
+        return deref(X("call", "verif_asm_map_index", [F(), X("cast", "void *", addr(o)), tr.bind_ref(args[0])], ty=Ty("ptr", to=STR)))
+
+    def str_assign(tr, fid, e, args, obj):
+        if not inside(tr):
+            return None
+        tr.cur.calls["verif_asm_str_assign"] = True
+        o = deref(tr.rv(obj[0])) if obj[1] else tr.lv(obj[0])
+        return deref(X("call", "verif_asm_str_assign", [F(), addr(o), tr.bind_ref(args[0])], ty=Ty("ptr", to=STR)))
+
+    def push_child(tr, fid, e, args, obj):
+        if not inside(tr):
+            return None
+        tr.cur.calls["verif_asm_push_child"] = True
+        o = deref(tr.rv(obj[0])) if obj[1] else tr.lv(obj[0])
+        return X("call", "verif_asm_push_child", [F(), X("cast", "void *", addr(o)), tr.bind_ref(args[0])], ty=parse_type("void"))
+
+    def str_ne(tr, fid, e, args, obj):
+        if not inside(tr):
+            return None
+        info = tr.ast.finfo(fid)
+        rets, ps = fn_ret_type(info["type"])
+        if parse_type(ps[1]).kind == "ref":
+            tr.cur.calls["verif_asm_str_ne"] = True
+            return X("call", "verif_asm_str_ne", [F(), tr.bind_ref(args[0]), tr.bind_ref(args[1])], ty=parse_type("bool"))
+        tr.cur.calls["verif_asm_str_ne_cstr"] = True
+        return X("call", "verif_asm_str_ne_cstr", [F(), tr.bind_ref(args[0]), tr.rv(args[1])], ty=parse_type("bool"))
+
+    cursor = lambda: deref(X("var", "s", ty=Ty("ptr", to=Ty("ptr", to=parse_type("char")))))
+    return {"rkcommon::xml::parseIdentifier": internal("verif_log_parseIdentifier"), "rkcommon::xml::parseProp": internal("verif_log_parseProp"),
+            "rkcommon::xml::parseNode": internal("verif_log_parseNode"), "rkcommon::xml::makeString": internal("verif_log_makeString", extra=cursor),
+            "std::map<std::basic_string<char>, std::basic_string<char>>::operator[]": map_index, "std::basic_string<char>::operator=": str_assign,
+            "std::vector<rkcommon::xml::Node>::push_back": push_child, "std::operator!=": str_ne}
+
+
+def assembly_unit():
+    A = Unit("c16_assembly", "units/c16_xml.cpp", helpers=HELPERS, stubs=ASM_STUBS.replace("begin == f_content_begin", "1"),
+             opts=dict(opaque_std=True, intercept=asm_intercepts(), force_records=["std::basic_string<char>", "rkcommon::xml::Node"],
+                       stub_may_throw=["verif_log_parseIdentifier", "verif_log_parseProp", "verif_log_parseNode", "verif_log_makeString"]))
+    A.stub_deps = {"verif_log_parseIdentifier": ["x_parseIdentifier"], "verif_log_parseProp": ["x_parseProp"], "verif_log_parseNode": ["x_parseNode"], "verif_log_makeString": ["x_makeString"]}
+    A.stub("verif_log_* / verif_asm_*", "logging wrappers around the functions under contract and recording models of the std operations parseNode applies to the node under construction (ghost bookkeeping only; results of the std operations stay nondeterministic)")
+    declare(AssumedView(A))
+    CUR_OK = {"cursor_stays_inside_the_buffer": VALID, "only_runtime_error_escapes": "__verif_exc == 0 || __verif_exc == %s" % EXC}
+    IDLE = "gl.prop_pending == 0 && gl.slot_pending == 0 && gl.stored == gl.found && gl.child_pending == 0 && gl.pushed == gl.parsed && gl.content_pending == 0 && gl.ident_calls == 1"
+    A.fn("x_parseNode", variant="assembly", rec=True, timeout=1800, solver=CADICAL, flags=GUARD, pre_call=buffer(), requires=BUFOK + [VALID, "**$0 != 0"], assigns=["*$0"],
+         ghost_entry=["char *g_entry = *$0;", "verif_frame gl = {0};"],
+         loops={1: dict(assigns=["*s", "name", "value", "node", "__verif_exc", "gl"], invariant=[LV("*s"), "__verif_exc == 0", "__CPROVER_POINTER_OFFSET(*s) > __CPROVER_POINTER_OFFSET(g_entry)", IDLE, "gl.parsed == 0 && gl.content_sets == 0", "gl.open_name == &node.name"], decreases=DIST("*s")),
+                2: dict(assigns=["*s", "node", "__verif_exc", "gl"], invariant=[LV("*s"), "__verif_exc == 0", "__CPROVER_POINTER_OFFSET(*s) > __CPROVER_POINTER_OFFSET(g_entry)", IDLE, "gl.open_name == &node.name"], decreases=DIST("*s")),
+                3: dict(assigns=["*s"], invariant=[LV("*s"), "__CPROVER_POINTER_OFFSET(*s) >= __CPROVER_POINTER_OFFSET(begin)"], decreases=DIST("*s")),
+                4: dict(assigns=["end"], invariant=[LV("end"), "__CPROVER_POINTER_OFFSET(end) > __CPROVER_POINTER_OFFSET(g_entry)", "__CPROVER_POINTER_OFFSET(end) <= __CPROVER_POINTER_OFFSET(*s)"], decreases="__CPROVER_POINTER_OFFSET(end)")},
+         ensures=dict(CUR_OK, a_node_consumes_at_least_its_opening_bracket="IMP(__verif_exc == 0, __CPROVER_POINTER_OFFSET(*$0) > __CPROVER_POINTER_OFFSET(OLD(*$0)))"))
+    return A
 
 
 def values_unit():
